@@ -469,6 +469,26 @@ def x7_shims(text, log):
         return "vx_contains_char(%s, %s)" % (m.group(1), m.group(2))
     text = re.sub(r"\b(value)\.contains\(('(?:\\.|[^'\\])')\)", cchar, text)
 
+    def names_iter(m):
+        log.add("X7:vx_strset_into_iter")
+        return "vx_strset_into_iter(%s.column_names())" % m.group(1)
+    text = re.sub(r"\b([a-z_][a-z0-9_]*)\.column_names\(\)\.into_iter\(\)", names_iter, text)
+
+    def chaincl(m):
+        log.add("X7:vx_chain_cloned")
+        return "vx_chain_cloned(%s, %s)" % (m.group(1), m.group(2)) + _nl(m.group(0))
+    text = re.sub(r"\b([a-z_][a-z0-9_]*)\s*\.iter\(\)\s*\.chain\(([a-z_][a-z0-9_]*)\.iter\(\)\)\s*\.cloned\(\)\s*\.collect\(\)", chaincl, text)
+
+    def tovals(m):
+        log.add("X7:vx_to_values")
+        return "vx_to_values(&%s, %s)" % (m.group(1), m.group(2)) + _nl(m.group(0))
+    text = re.sub(r"\b([a-z_][a-z0-9_]*)\s*\.iter\(\)\s*\.map\(\|value_ref\| value_ref\.to_value\(([a-z_][a-z0-9_]*)\)\)\s*\.collect\(\)", tovals, text)
+
+    def padnulls(m):
+        log.add("X7:vx_pad_nulls")
+        return "vx_pad_nulls(%s, &%s)" % (m.group(1), m.group(2)) + _nl(m.group(0))
+    text = re.sub(r"\b([a-z_][a-z0-9_]*)\s*\.iter\(\)\s*\.cloned\(\)\s*\.chain\(\s*([a-z_][a-z0-9_]*)\s*\.columns\(\)\s*\.iter\(\)\s*\.map\(\|_\| ValueRef::Null\),?\s*\)\s*\.collect\(\)", padnulls, text)
+
     def tget(m):
         log.add("X7:vx_tables_get")
         return "vx_tables_get(%s, %s)" % (m.group(1), m.group(2))
@@ -997,8 +1017,8 @@ def parse_template(tpath):
                 # X15: only the statements from the one starting with the first snippet through the one
                 # ending with the second snippet are extracted, as the body of a function whose
                 # signature (the block's free variables) is given by the template
-                m = re.match(r"`(.*)`\s+`(.*)`$", d[6:].strip())
-                cur_fn.block = (m.group(1).replace("\\n", "\n"), m.group(2).replace("\\n", "\n"))
+                m = re.match(r"(?:(\d+)\s+)?`(.*)`\s+`(.*)`$", d[6:].strip())
+                cur_fn.block = (m.group(2).replace("\\n", "\n"), m.group(3).replace("\\n", "\n"), int(m.group(1) or 1))
                 cur_block = None
             elif d.startswith("sig "):
                 cur_fn.sig = d[4:].strip()
@@ -1227,7 +1247,11 @@ class Extractor:
         if not m:
             raise SystemExit("//@block without a usable //@sig")
         ident = ident.rsplit("::", 1)[0] + "::" + m.group(1)
-        k1 = orig.find(fs.block[0])
+        k1 = -1
+        for _ in range(fs.block[2]):
+            k1 = orig.find(fs.block[0], k1 + 1)
+            if k1 < 0:
+                break
         if k1 < 0:
             raise AnchorLost("%s: block start `%s` not found" % (ident, fs.block[0]))
         k2 = orig.find(fs.block[1], k1)
@@ -1258,7 +1282,33 @@ class Extractor:
             self.probed.append(ident)
         if fs.bodystart:
             self.emit_block(fs.bodystart)
-        self.emit(text + "\n", rel, line0)
+        # loop invariants and before/after hints, as in do_fn (offsets into the rewritten block)
+        inserts = []
+        tmask = mask_source(text)
+        loops = [mm for mm in re.finditer(r"\b(while|for|loop)\b", tmask)]
+        for n, blk in fs.loops.items():
+            if n < 1 or n > len(loops):
+                raise AnchorLost("%s: loop #%d not found in the block (%d loops)" % (ident, n, len(loops)))
+            lb = find_body_open(tmask, loops[n - 1].end())
+            inserts.append((lb, blk))
+        def nth_of(snip, nth):
+            k = -1
+            for _ in range(nth):
+                k = text.find(snip, k + 1)
+                if k < 0:
+                    raise AnchorLost("%s: snippet `%s` (occurrence %d) not found in the block" % (ident, snip, nth))
+            return k
+        for (snip, blk, tl, nth) in fs.before:
+            inserts.append((nth_of(snip, nth), blk))
+        for (snip, blk, tl, nth) in fs.after:
+            inserts.append((nth_of(snip, nth) + len(snip), blk))
+        inserts.sort(key=lambda x: x[0])
+        pos = 0
+        for (off, blk) in inserts:
+            self.emit(text[pos:off] + "\n", rel, line0 + text.count("\n", 0, pos))
+            self.emit_block(blk)
+            pos = off
+        self.emit(text[pos:] + "\n", rel, line0 + text.count("\n", 0, pos))
         self.emit((fs.tail or "") + "\n}\n", self.tpath, fs.tline)
         self._fn_marks[-1][2] = len(self.pieces)
 
